@@ -192,6 +192,21 @@ impl<'a> Model<'a> {
         })
     }
 
+    /// Valid Rust source for a reference to this type from inside the crate.
+    pub fn rust_ty_src(&self, mi: usize, t: &Ty) -> Option<String> {
+        Some(match t {
+            Ty::Named(n) => match self.bind(mi, n)? {
+                Bind::Builtin(b) if b == "void" => "::core::ffi::c_void".to_string(),
+                Bind::Builtin(b) => b,
+                other => format!("crate::{}", self.bind_path(&other)),
+            },
+            Ty::CPtr(t) => format!("*const {}", self.rust_ty_src(mi, t)?),
+            Ty::MPtr(t) => format!("*mut {}", self.rust_ty_src(mi, t)?),
+            Ty::Arr(t, n) => format!("[{}; {}]", self.rust_ty_src(mi, t)?, n),
+            Ty::Unk(n) => format!("[u8; {n}]"),
+        })
+    }
+
     /// Does every name in the type bind (pointers included)?
     pub fn names_bind(&self, mi: usize, t: &Ty) -> Result<(), String> {
         match t.leaf() {
